@@ -57,6 +57,7 @@ def cells(tier, seed):
                 out.append({"k": "fault", "f": fi, "n": n, "m": m})
     for n in range(0, 3):
         out.append({"k": "module", "n": n})
+        out.append({"k": "twomods", "n": n})
     for i in range(len(INNER)):
         for n in range(1, b["gap_len"] + 1):
             out.append({"k": "inner", "i": i, "n": n})
@@ -219,4 +220,48 @@ def run(ctx, cell):
             ctx.check(e.pos.line == exp, "C20:module:wrong-line",
                       lambda: {"reported": int(e.pos.line), "expected": int(exp)})
         return [out.kind, str(e.pos.filename) if e.pos is not None else None]
+    if k == "twomods":
+        # two module files with the same text under different names: an error raised in one names that one
+        ctx.reach("fault")
+        g = ctx.str("g", cell["n"])
+        T.layout_ok(ctx, g)
+        for ch in list(g):
+            ctx.assume(ch != "\r")
+        body = "def ok = 1;" + g + "def boom(x) x + undefined_name;"
+        order = [("c20moda", "c20modb"), ("c20modb", "c20moda")][ctx.choice("order", 2)]
+        shared = ctx.choice("shared_interpreter", 2)
+        d = tempfile.mkdtemp(prefix="c20mod")
+        res = []
+        try:
+            for nm in order:
+                with open(os.path.join(d, nm + ".ckl"), "w", encoding="utf-8") as f:
+                    f.write(str(body))
+            from harness.common import fresh_interp
+            it = fresh_interp()
+            for nm in order:
+                if not shared:
+                    it = fresh_interp()
+                out = run_ckl("require %s; %s->boom(1)" % (nm, nm), {"checkerlang_module_path": vlist([vstr(d)])},
+                              it=it, name="prog.ckl")
+                if out.kind != "rt":
+                    ctx.fail("C20:twomods:unexpected-outcome-%s" % out.kind, lambda: str(out.exc or out.value))
+                    return out
+                e = out.exc
+                exp = 1 + count_nl(list(g))
+                detail = lambda: {"order": list(order), "shared_interpreter": int(shared), "module": nm, "reported": str(e.pos)}
+                ctx.check(e.pos is not None and nm in str(e.pos.filename), "C20:twomods:error-names-another-module", detail)
+                if e.pos is not None:
+                    ctx.check(e.pos.line == exp, "C20:twomods:wrong-line", detail)
+                res.append(str(e.pos.filename) if e.pos is not None else None)
+        finally:
+            for nm in order:
+                try:
+                    os.remove(os.path.join(d, nm + ".ckl"))
+                except OSError:
+                    pass
+            try:
+                os.rmdir(d)
+            except OSError:
+                pass
+        return res
     raise AssertionError(k)
